@@ -1,6 +1,7 @@
 package simharness
 
 import (
+	"syscall"
 	"bytes"
 	"context"
 	"errors"
@@ -63,6 +64,22 @@ func (w *slowWriter) Write(p []byte) (int, error) {
 		c.data = nil
 		w.calls = append(w.calls, c)
 		panic(fmt.Sprintf("injected writer panic #%d", n))
+	case "short-temporary":
+		// part of the bytes were taken, then the call failed with an error that calls itself temporary
+		// (a non-blocking pipe that is full, an interrupted call, a write deadline): the bytes are out
+		k := len(p) / 2
+		w.buf = append(w.buf, p[:k]...)
+		c.res = "short-temporary"
+		c.data = c.data[:k]
+		w.calls = append(w.calls, c)
+		simrt.Probe("writer.partial-write-then-temporary-error")
+		switch n % 3 {
+		case 0:
+			return k, syscall.EAGAIN
+		case 1:
+			return k, &os.PathError{Op: "write", Path: "|1", Err: os.ErrDeadlineExceeded}
+		}
+		return k, syscall.EINTR
 	case "short":
 		k := len(p) / 2
 		w.buf = append(w.buf, p[:k]...)
@@ -97,7 +114,7 @@ func runWriterSink(rc *RunCtx) {
 	}
 	nFaults := tp.Choose(4, "nfaults")
 	for i := 0; i < nFaults; i++ {
-		w.plan[1+tp.Choose(nTasks*2, "faultcall")] = []string{"fail", "short", "fail", "short", "panic"}[tp.Choose(5, "faultkind")]
+		w.plan[1+tp.Choose(nTasks*2, "faultcall")] = []string{"fail", "short", "fail", "short", "panic", "short-temporary"}[tp.Choose(6, "faultkind")]
 	}
 	type wev struct {
 		id       int
